@@ -3,6 +3,7 @@ package main
 import (
 	"go/token"
 	"sort"
+	"strings"
 
 	"golang.org/x/tools/go/ssa"
 )
@@ -246,18 +247,60 @@ func ruleListNoop(c *Ctx, r *R) {
 
 func ruleListMirror(c *Ctx, r *R) {
 	p := "container/xlist.List."
-	for _, pr := range [][2]string{{"PushFront", "PushBack"}, {"InsertBefore", "InsertAfter"}, {"MoveBefore", "MoveAfter"}, {"MoveToFront", "MoveToBack"}} {
-		mirrorPair(c, r, "xlist|"+pr[0]+"~"+pr[1], p+pr[0], p+pr[1], listDuality)
+	// every method whose name has a dual under prev<->next / front<->back / before<->after is paired with it;
+	// a method whose name is its own dual and that touches links must be self-dual
+	meths := c.methodsOf("container/xlist", "List")
+	var names []string
+	for n := range meths {
+		names = append(names, n)
 	}
-	selfDual(c, r, "xlist|remove-self-dual", p+"remove", listDuality)
+	sort.Strings(names)
+	done := map[string]bool{}
+	for _, n := range names {
+		dn := listDuality.ident(n)
+		if dn == n {
+			if n == "remove" || touchesLinks(meths[n]) && n != "Clear" && n != "Remove" && n != "Len" {
+				selfDual(c, r, "xlist|"+n+"-self-dual", p+n, listDuality)
+			}
+			continue
+		}
+		if done[n] || meths[dn] == nil {
+			continue
+		}
+		done[n], done[dn] = true, true
+		a, b := n, dn
+		// keep the historical key order: Front/Before first
+		if strings.Contains(b, "Front") || strings.Contains(b, "Before") || strings.HasSuffix(b, "Prev") {
+			a, b = b, a
+		}
+		mirrorPair(c, r, "xlist|"+a+"~"+b, p+a, p+b, listDuality)
+	}
+	// Node.Next / Node.Prev
+	mirrorPair(c, r, "xlist|Node.Next~Node.Prev", "container/xlist.Node.Next", "container/xlist.Node.Prev", listDuality)
 }
 
 // ruleListLinkPairing: in the functions that splice nodes, every link store has its counterpart.
 func ruleListLinkPairing(c *Ctx, r *R) {
-	for _, n := range []string{"PushFront", "PushBack", "InsertBefore", "InsertAfter", "MoveBefore", "MoveAfter", "remove"} {
-		fn := c.fn("container/xlist.List." + n)
-		if fn == nil {
-			r.undecided("xlist.List."+n+"|missing", token.NoPos, "anchor not found")
+	meths := c.methodsOf("container/xlist", "List")
+	var mnames []string
+	for n := range meths {
+		mnames = append(mnames, n)
+	}
+	sort.Strings(mnames)
+	for _, n := range mnames {
+		fn := meths[n]
+		touches := false
+		instrs(fn, func(b *ssa.BasicBlock, i int, in ssa.Instruction) {
+			if st, ok := in.(*ssa.Store); ok {
+				if fa, ok := st.Addr.(*ssa.FieldAddr); ok {
+					f := fieldName(fa.X.Type(), fa.Field)
+					if f == "prev" || f == "next" || f == "front" || f == "back" {
+						touches = true
+					}
+				}
+			}
+		})
+		if !touches || n == "Clear" {
 			continue
 		}
 		// collect link facts established by stores: X.next = Y  /  X.prev = Y  (paths as strings)
@@ -285,7 +328,7 @@ func ruleListLinkPairing(c *Ctx, r *R) {
 				self = true
 			}
 		}
-		r.ok(!self && len(links) > 0, "xlist.List."+n+"|no-self-link", fn.Pos(), "a node must never become its own neighbour")
+		r.ok(!self, "xlist.List."+n+"|no-self-link", fn.Pos(), "a node must never become its own neighbour")
 		// end maintenance: a store to l.front / l.back is legitimate only (a) under a fresh test of that same end
 		// (l.front == x, l.back == nil, ...) evaluated with nothing mutating the list in between, or (b) as the
 		// unconditional store of the pushed end in PushFront / PushBack.
@@ -400,4 +443,19 @@ func ruleListUnlinkBothSides(c *Ctx, r *R) {
 		pos = retPos(bad)
 	}
 	r.ok(good, "xlist.List.remove|both-sides", pos, "a path through remove leaves one side of the removed node un-repaired: the surviving neighbour (or the list end) still points at the removed node, so one of the two walks visits it")
+}
+
+func touchesLinks(fn *ssa.Function) bool {
+	res := false
+	instrs(fn, func(b *ssa.BasicBlock, i int, in ssa.Instruction) {
+		if st, ok := in.(*ssa.Store); ok {
+			if fa, ok := st.Addr.(*ssa.FieldAddr); ok {
+				switch fieldName(fa.X.Type(), fa.Field) {
+				case "prev", "next", "front", "back":
+					res = true
+				}
+			}
+		}
+	})
+	return res
 }
